@@ -177,6 +177,7 @@ def run(ctx):
     th = C.run_harness('h_pkt', tscripts)
     ctx.cov['evaluations'] += len(tscripts)
     tkinds, treported = {}, 0
+    tried, accepted = {}, {}
     known, _ = C.load_known('C04')
     known_typed = {}
     for k in known:
@@ -189,10 +190,13 @@ def run(ctx):
         cls, fld = lines[0].split()[1], lines[-3].split()[2]
         n0 = len(lines) - 4                        # index of the 'val' line
         cat, bad = typed_verdict(cls, fld, lines, lh, n0)
+        tried[(cls, fld)] = tried.get((cls, fld), 0) + 1
         if cat is None:
             if bad is None:
                 nontriv.add((cls, fld, lines[-3]))
+                accepted[(cls, fld)] = accepted.get((cls, fld), 0) + 1
             continue
+        accepted[(cls, fld)] = accepted.get((cls, fld), 0) + 1
         kshort = '%s %s' % (fld, cat)
         tkinds[kshort] = tkinds.get(kshort, 0) + 1
         if (fld, cat) in known_typed:
@@ -204,6 +208,7 @@ def run(ctx):
         ctx.violation(bad[:300], '=== replay\n' + '\n'.join(lines) + '\n--- ' + bad + '\n--- C++ output\n' + '\n'.join(l[:600] for l in lh) + '\n')
     ctx.notes['typed_setters_swept'] = len(typed)
     ctx.notes['typed_failure_kinds'] = tkinds
+    ctx.notes['typed_setters_never_accepting_a_generated_value'] = sorted('%s.%s' % k for k in tried if not accepted.get(k))
     # ---- option histories: add / remove-first / search-first against a shadow list, then through the wire ----
     hscripts, hmeta = [], {}
     for i in range(600 if quick else 12000):
